@@ -35,7 +35,9 @@ def unbroadcast(array):
         The reshaped array.
     """
 
-    if array.ndim == 0 or not hasattr(array, 'strides'):
+    # (an array without elements has nothing to un-broadcast: cutting a zero-length
+    # axis with stride 0 to length 1 would bring an element back)
+    if array.ndim == 0 or array.size == 0 or not hasattr(array, 'strides'):
         return array
 
     new_shape = np.where(np.array(array.strides) == 0, 1, array.shape)
